@@ -1,4 +1,5 @@
 import AmrK.TasteProofs
+import AmrK.TasteCoordsProofs
 import AmrK.TasteComplete
 import AmrK.TasteLevelSound
 import AmrK.TastePltSound
@@ -80,5 +81,22 @@ example :
     shapeOK ((fileOf 1 [(⟨[0,0,0],[1,0,0],"f",0⟩, List.replicate 16 1)]).dropLast) 1 [⟨[0,0,0],[1,0,0],"f",0⟩] = false ∧
     shapeOK (fileOf 1 [(⟨[0,0,0],[1,0,0],"f",0⟩, List.replicate 16 1)] ++ [0]) 1 [⟨[0,0,0],[1,0,0],"f",0⟩] = false := by
   decide +kernel
+
+/-- **what an accepted box-coordinate check means** (exact arithmetic): the physical bounds lie within numpy's tolerance
+    band `1e-8 + 1e-5·|bound|` of the faces of the box's index range -/
+theorem coordinates_sound (lo hi dx : Rat) (n : Nat) (i0 i1 : Nat) (h0 : i0 < n) (h1 : i1 < n) (h : hi = lo + (n : Rat) * dx)
+    (blo bhi : Rat) (hok : TasteCoords.axisOK lo hi dx n i0 i1 blo bhi = some true) :
+    |lo + (i0 : Rat) * dx - blo| ≤ TasteCoords.tol blo ∧ |lo + ((i1 : Rat) + 1) * dx - bhi| ≤ TasteCoords.tol bhi :=
+  TasteCoords.axisOK_sound lo hi dx n i0 i1 h0 h1 h blo bhi hok
+
+/-- **a box whose lower bound is off by a whole number of cells is rejected** whenever a cell is wider than the tolerance
+    band at that bound -/
+theorem shifted_bound_rejected (lo hi dx : Rat) (n : Nat) (i0 i1 : Nat) (h0 : i0 < n) (h1 : i1 < n) (h : hi = lo + (n : Rat) * dx)
+    (k : Int) (hk : k ≠ 0) (bhi : Rat) (hdx : TasteCoords.tol (lo + ((i0 : Rat) + k) * dx) < dx) :
+    TasteCoords.axisOK lo hi dx n i0 i1 (lo + ((i0 : Rat) + k) * dx) bhi ≠ some true :=
+  TasteCoords.shifted_lo_rejected lo hi dx n i0 i1 h0 h1 h k hk bhi hdx
+
+example : TasteCoords.axisOK (-1) 3 (1/2) 8 2 5 0 2 = some true ∧ TasteCoords.axisOK (-1) 3 (1/2) 8 2 5 (1/2) 2 = some false ∧
+    TasteCoords.axisOK (-1) 3 (1/2) 8 2 8 0 2 = none ∧ TasteCoords.axisOK (-1) 3 (1/2) 8 (-6) 5 0 2 = some true := by decide +kernel
 
 end C04
